@@ -1,0 +1,98 @@
+//go:build verif
+
+package dhcp
+
+// Add-only verification hooks for property C02 (DHCP servers never bind one
+// address to two clients) and C03 (fast path answers as userspace would).
+// Compiled only with `-tags verif`; nothing here changes behaviour: the
+// wrappers call the unexported entry points exactly as Start / leaseCleanup do,
+// the accessors return copies.
+
+import (
+	"net"
+	"sort"
+
+	"github.com/insomniacslk/dhcp/dhcpv4"
+)
+
+// VerifLease is one entry of a lease index: the map key (MAC string for the
+// primary table, hex circuit-id for the secondary index) and a copy of the lease.
+type VerifLease struct {
+	Key   string
+	Lease Lease
+}
+
+// VerifPoolState is a copy of a pool's allocation state.
+type VerifPoolState struct {
+	Allocated   map[string]string // MAC -> IP
+	Available   []string          // in allocation order
+	Unavailable []string          // declined addresses, sorted
+}
+
+// VerifHandle calls the packet handler that server4 invokes for every datagram
+// (synchronously; replies are written to conn).
+func (s *Server) VerifHandle(conn net.PacketConn, peer net.Addr, req *dhcpv4.DHCPv4) {
+	s.handleDHCP(conn, peer, req)
+}
+
+// VerifCleanupExpired runs one tick of the lease cleanup loop.
+func (s *Server) VerifCleanupExpired() { s.cleanupExpiredLeases() }
+
+func verifCopyLease(l *Lease) Lease {
+	c := *l
+	c.MAC = append(net.HardwareAddr(nil), l.MAC...)
+	c.IP = append(net.IP(nil), l.IP...)
+	c.Class = append([]byte(nil), l.Class...)
+	c.CircuitID = append([]byte(nil), l.CircuitID...)
+	c.RemoteID = append([]byte(nil), l.RemoteID...)
+	return c
+}
+
+// VerifLeases returns a snapshot of the lease table (MAC -> lease), sorted by key.
+func (s *Server) VerifLeases() []VerifLease {
+	s.leasesMu.RLock()
+	defer s.leasesMu.RUnlock()
+	out := make([]VerifLease, 0, len(s.leases))
+	for k, l := range s.leases {
+		if l == nil {
+			continue
+		}
+		out = append(out, VerifLease{Key: k, Lease: verifCopyLease(l)})
+	}
+	sort.Slice(out, func(i, j int) bool { return out[i].Key < out[j].Key })
+	return out
+}
+
+// VerifLeasesByCircuitID returns a snapshot of the circuit-id secondary index
+// (hex circuit-id -> lease), sorted by key.
+func (s *Server) VerifLeasesByCircuitID() []VerifLease {
+	s.leasesByCircuitIDMu.RLock()
+	defer s.leasesByCircuitIDMu.RUnlock()
+	out := make([]VerifLease, 0, len(s.leasesByCircuitID))
+	for k, l := range s.leasesByCircuitID {
+		if l == nil {
+			continue
+		}
+		out = append(out, VerifLease{Key: k, Lease: verifCopyLease(l)})
+	}
+	sort.Slice(out, func(i, j int) bool { return out[i].Key < out[j].Key })
+	return out
+}
+
+// VerifState returns a copy of the pool's allocated / available / unavailable sets.
+func (p *Pool) VerifState() VerifPoolState {
+	p.mu.Lock()
+	defer p.mu.Unlock()
+	st := VerifPoolState{Allocated: make(map[string]string, len(p.allocated))}
+	for mac, ip := range p.allocated {
+		st.Allocated[mac] = ip.String()
+	}
+	for _, ip := range p.available {
+		st.Available = append(st.Available, ip.String())
+	}
+	for ip := range p.unavailable {
+		st.Unavailable = append(st.Unavailable, ip)
+	}
+	sort.Strings(st.Unavailable)
+	return st
+}
